@@ -293,11 +293,15 @@ def run_group_once(g, gdir, extra_defs=()):
         if status not in ('success', 'failure') or (not results):
             last = 'back end %s gave no verdict: %s' % (s, '; '.join(errs)[-400:] or (err or '')[-400:])
             continue
-        if any(r.get('status') not in ('SUCCESS', 'FAILURE') for r in results):
-            badr = [r for r in results if r.get('status') not in ('SUCCESS', 'FAILURE')][:3]
+        unknown = [r for r in results if r.get('status') not in ('SUCCESS', 'FAILURE')]
+        if unknown and not any(r.get('status') == 'FAILURE' for r in results):
+            badr = unknown[:3]
             last = 'back end %s returned ERROR/UNKNOWN statuses: %s' % (
                 s, '; '.join('%s %s [%s]' % (r['property'], r.get('status'), r.get('description', '')[:60]) for r in badr))
             continue
+        # with failures present CBMC leaves properties behind a failed check undetermined (UNKNOWN):
+        # the failures are reported, the undetermined ones are not counted as discharged
+        results = [r for r in results if r.get('status') in ('SUCCESS', 'FAILURE')]
         obs = []
         for r in results:
             fn = (r.get('sourceLocation') or {}).get('function', '') or r['property'].split('.')[0]
@@ -452,9 +456,18 @@ def write_replay(ctx, r, o):
            'counterexample_harness_inputs': [{'lhs': l, 'value': v, 'binary': b} for l, v, b in inputs][:200],
            'native_replay': None}
     found = False
-    if g.replay:
+    cache = ctx.__dict__.setdefault('replay_cache', {})
+    ckey = (g.name.split('/')[0], o.key)
+    budget = int(os.environ.get('VERIF_REPLAYS', '6'))
+    if g.replay and ckey in cache:
+        rec['native_replay'] = dict(cache[ckey], note='same failing obligation as an earlier group of this run; replay shared')
+        found = bool(cache[ckey].get('reproduced'))
+    elif g.replay and len(cache) >= budget:
+        rec['native_replay'] = {'reproduced': False, 'note': 'replay budget of this run (%d native replays) used up' % budget}
+    elif g.replay:
         try:
             nat = g.replay(ctx, g, o, dict((l, v) for l, v, b in reversed(inputs)))
+            cache[ckey] = nat or {'reproduced': False}
             rec['native_replay'] = nat
             found = bool(nat and nat.get('reproduced'))
         except Exception as e:   # replay problems never hide the violation
